@@ -25,7 +25,7 @@ import yaml
 from vlib import core, rt
 
 PROP = "C08"
-KEYS = ["a", "b", "c", "d", "e", "f", "g", "h"]
+KEYS = ["a", "B", "c", "D", "_e", "Z", "aa", "Ab", "b", "é"]       # mixed case, underscore, non-ASCII: keys sort by code point
 MODES = ["by_position", "combinatorial"]
 
 
